@@ -585,6 +585,63 @@ theorem findMount_longest (mounts : List Path) (cwd p m rel : Path)
       · exact hb.2.2 k hk hkm
     · rw [t.2 hnone] at h; cases h
 
+/-- **A path that lies under a mount point is served** — by that mount or a longer one, never
+    refused and never handed to a shorter (enclosing) mount: for every mount table, working
+    directory and path string, if some mount point `k` equals the (cleaned) path or matches it
+    at a component boundary, `findMount` answers, and with a mount point at least as long. -/
+theorem findMount_serves_every_match (mounts : List Path) (cwd p k : Path) (hk : k ∈ mounts)
+    (hm : k = mountKeyPath cwd p ∨ mountMatches (mountKeyPath cwd p) k = true) :
+    ∃ m rel, findMount mounts cwd p = some (m, rel) ∧ k.length ≤ m.length := by
+  unfold findMount
+  generalize mountKeyPath cwd p = path at hm
+  have s := findMountLoop_spec path mounts none (by simp)
+  by_cases hin : path ∈ mounts
+  · refine ⟨path, [47], s.1 hin, ?_⟩
+    rcases hm with rfl | hm
+    · exact Nat.le_refl _
+    · exact hasPrefix_length (mountMatches_hasPrefix hm)
+  · have t := s.2 hin
+    simp only [Option.toList_none, List.nil_append] at t
+    have hkm : mountMatches path k = true := by
+      rcases hm with rfl | hm
+      · exact absurd hk hin
+      · exact hm
+    rcases exists_best path mounts with ⟨b, hb⟩ | hnone
+    · exact ⟨b, relOf path b, t.1 b hb, hb.2.2 k hk hkm⟩
+    · rw [hnone k hk] at hkm; cases hkm
+
+/-- **Mount points registered with a trailing separator** (`/vault/` — what
+    `risor --virtual-os --mount dir:/vault/` produces: the destination string is used verbatim
+    as key and target): every path whose cleaned form continues such a mount point is served by
+    that mount or a longer one — not by the enclosing mount (`/`), and not refused — and the
+    serving mount is a component-wise prefix of the path. -/
+theorem trailing_sep_mount_serves_below (mounts : List Path) (cwd p k' s : Path)
+    (hk : k' ++ [47] ∈ mounts) (hkey : mountKeyPath cwd p = k' ++ 47 :: s) :
+    ∃ m rel, findMount mounts cwd p = some (m, rel) ∧ (k' ++ [47]).length ≤ m.length
+      ∧ isCompPrefix (comps m) (comps (mountKeyPath cwd p)) = true := by
+  have hmm : mountMatches (mountKeyPath cwd p) (k' ++ [47]) = true := by
+    rw [hkey]
+    have e : k' ++ 47 :: s = (k' ++ [47]) ++ s := by simp
+    rw [e]
+    have h1 : hasPrefix ((k' ++ [47]) ++ s) (k' ++ [47]) = true := hasPrefix_append _ _
+    have h2 : hasSuffixSlash (k' ++ [47]) = true := by simp [hasSuffixSlash]
+    simp only [mountMatches, h1, h2, Bool.true_or, Bool.and_self]
+  obtain ⟨m, rel, h, hl⟩ := findMount_serves_every_match mounts cwd p (k' ++ [47]) hk (Or.inr hmm)
+  exact ⟨m, rel, h, hl, C13_mounts_component_prefix mounts cwd p m rel h⟩
+
+/-- mounts `/` and `/v/`, path `/v/x` -/
+def tsMounts : List Path := [[47], [47, 118, 47]]
+def tsPath : Path := [47, 118, 47, 120]
+
+/-- **Looking up the path's ancestor directories instead of scanning the mount table is NOT
+    equivalent**: the code serves `/v/x` from the mount registered as `/v/` (relative path `x`);
+    the parent walk never sees a key that ends with a separator and hands the path to the
+    enclosing mount `/` as `v/x`. -/
+theorem parent_walk_misses_trailing_sep_mount :
+    findMount tsMounts [47] tsPath = some ([47, 118, 47], [120])
+    ∧ findMountByParents tsMounts [47] tsPath = some ([47], [118, 47, 120])
+    ∧ specMount tsMounts [47] tsPath = some [47, 118, 47] := by decide
+
 theorem comps_sep_cons (s : Path) : comps (47 :: s) = comps s := by
   have := comps_append_sep [] s
   simp [comps, split] at this ⊢
@@ -922,11 +979,108 @@ theorem hostJoin_render (rb : Bool) (cs : List Path) (n : Path) (h : Good cs) (h
   rw [hostJoin, render_no_trailing_sep rb cs h hne, render_snoc rb cs n hne]
   simp
 
+def srvBase0 : Path := [47,115,114,118]
+
+theorem patternParts_mem (pat pre suf : Path) (h : patternParts pat = some (pre, suf)) :
+    ∀ x, (x ∈ pre ∨ x ∈ suf) → x ∈ pat := by
+  induction pat generalizing pre suf with
+  | nil => simp [patternParts] at h
+  | cons c cs ih =>
+    simp only [patternParts] at h
+    split at h
+    · rename_i pre' suf' hp
+      simp only [Option.some.injEq, Prod.mk.injEq] at h
+      obtain ⟨rfl, rfl⟩ := h
+      intro x hx
+      rcases hx with hx | hx
+      · rcases List.mem_cons.1 hx with rfl | hx
+        · simp
+        · exact List.mem_cons_of_mem _ (ih pre' suf' hp x (Or.inl hx))
+      · exact List.mem_cons_of_mem _ (ih pre' suf' hp x (Or.inr hx))
+    · split at h
+      · simp only [Option.some.injEq, Prod.mk.injEq] at h
+        obtain ⟨rfl, rfl⟩ := h
+        intro x hx
+        rcases hx with hx | hx
+        · simp at hx
+        · exact List.mem_cons_of_mem _ hx
+      · cases h
+
+/-- **The name `os.MkdirTemp` makes from ANY pattern it accepts is a plain directory-entry
+    name**: for every pattern (arbitrary bytes) and every non-empty string of decimal digits, the
+    generated name contains no separator and is not empty, `.` or `..`; a pattern with a
+    separator yields no name at all. -/
+theorem tempName_plain (pattern rnd name : Path) (hne : rnd ≠ [])
+    (hd : ∀ x ∈ rnd, 48 ≤ x ∧ x ≤ 57) (h : tempName pattern rnd = some name) :
+    plain name = true ∧ 47 ∉ name := by
+  unfold tempName at h
+  split at h
+  · cases h
+  · rename_i hsep
+    have hp : 47 ∉ pattern := by
+      intro hmem
+      exact hsep (by simpa using hmem)
+    have hr : 47 ∉ rnd := fun hmem => by have := hd 47 hmem; omega
+    obtain ⟨d, rest, rfl⟩ : ∃ d rest, rnd = d :: rest := by
+      cases rnd with
+      | nil => exact absurd rfl hne
+      | cons d rest => exact ⟨d, rest, rfl⟩
+    have hdd := hd d (by simp)
+    have key : d ∈ name ∧ 47 ∉ name := by
+      split at h
+      · rename_i pre suf hparts
+        simp only [Option.some.injEq] at h
+        subst h
+        refine ⟨by simp, ?_⟩
+        intro hm
+        simp only [List.mem_append] at hm
+        rcases hm with (hm | hm) | hm
+        · exact hp (patternParts_mem pattern pre suf hparts 47 (Or.inl hm))
+        · exact hr hm
+        · exact hp (patternParts_mem pattern pre suf hparts 47 (Or.inr hm))
+      · simp only [Option.some.injEq] at h
+        subst h
+        refine ⟨by simp, ?_⟩
+        intro hm
+        simp only [List.mem_append] at hm
+        rcases hm with hm | hm
+        · exact hp hm
+        · exact hr hm
+    refine ⟨(plain_iff name).2 ⟨?_, ?_, ?_⟩, key.2⟩
+    · intro e; rw [e] at key; simp at key
+    · intro e; rw [e] at key
+      have : d = 46 := by simpa using key.1
+      omega
+    · intro e; rw [e] at key
+      have : d = 46 := by simpa [dotdot] using key.1
+      omega
+
+/-- a pattern with a path separator is refused: the call touches nothing and hands nothing out -/
+theorem mkdirTemp_separator_pattern_refused (base : Path) (st : LState) (dir : LArg)
+    (pattern rnd : Path) (h : 47 ∈ pattern) : lstep base st (.mkdirTempP dir pattern rnd) = st := by
+  have : tempName pattern rnd = none := by
+    unfold tempName
+    have hc : pattern.contains 47 = true := by simpa using h
+    rw [if_pos hc]
+  simp [lstep, this]
+
+/-- base `/srv`, pattern `../esc-*`, digits `7` -/
+def escPattern : Path := [46, 46, 47, 101, 115, 99, 45, 42]
+
+/-- **Building the temporary directory's path from the pattern without `os.MkdirTemp`'s
+    separator test is NOT equivalent**: the code refuses the pattern `../esc-*`; joining it to the
+    (confined) directory with `filepath.Join` gives `/esc-7`, outside the base `/srv`. -/
+theorem pattern_join_escapes :
+    lstep srvBase0 {} (.mkdirTempP (.lit []) escPattern [55]) = {}
+    ∧ tempPathJoined srvBase0 escPattern [55] = [47, 101, 115, 99, 45, 55]
+    ∧ hasPrefix (tempPathJoined srvBase0 escPattern [55]) srvBase0 = false := by decide
+
 /-- what a session must supply about the environment: a generated temporary name and the
     directory-entry names below a walked root are plain names (not empty, `.`, `..`; no
     separator) — what the operating system guarantees of directory entries -/
 def LOp.WF : LOp → Prop
   | .mkdirTemp _ name => plain name = true ∧ 47 ∉ name
+  | .mkdirTempP _ _ rnd => rnd ≠ [] ∧ ∀ x ∈ rnd, 48 ≤ x ∧ x ≤ 57   -- decimal digits; the PATTERN is arbitrary
   | .walk _ rels => ∀ rel ∈ rels, Good rel
   | _ => True
 
@@ -1012,6 +1166,26 @@ theorem lstep_inv (rb : Bool) (cb : List Path) (base : Path) (hcb : Good cb) (hn
         exact ⟨rest ++ [name], good_append hrest (good_single hwf.1 hwf.2), by simp⟩
       exact linv_extend rb cb st [_] [_] hinv (by simpa using hu) (by simpa using hu)
     · exact hinv
+  | mkdirTempP dir pattern rnd =>
+    simp only [lstep]
+    split
+    · exact hinv
+    · rename_i name hname
+      have hpl := tempName_plain pattern rnd name hwf.1 hwf.2 hname
+      split
+      · rename_i d hd
+        have hdu : Under rb cb d := by
+          unfold mkdirTempDir at hd
+          split at hd
+          · simp only [Res.ok.injEq] at hd
+            rw [← hd, hb]; exact under_base rb cb
+          · exact hres _ d hd
+        obtain ⟨rest, hrest, rfl⟩ := hdu
+        have hu : Under rb cb (hostJoin (render rb (cb ++ rest)) name) := by
+          rw [hostJoin_render rb (cb ++ rest) name (good_append hcb hrest) (by simp [hne])]
+          exact ⟨rest ++ [name], good_append hrest (good_single hpl.1 hpl.2), by simp⟩
+        exact linv_extend rb cb st [_] [_] hinv (by simpa using hu) (by simpa using hu)
+      · exact hinv
   | walk root rels =>
     simp only [lstep]
     split
